@@ -1059,7 +1059,24 @@ lp_upolynomial_t* lp_upolynomial_extended_gcd(const lp_upolynomial_t* p, const l
 
   lp_upolynomial_t* gcd = 0;
 
-  if (lp_upolynomial_degree(p) < lp_upolynomial_degree(q)) {
+  if (lp_upolynomial_is_zero(p) || lp_upolynomial_is_zero(q)) {
+    // gcd(p, 0) = p/lc(p) = (1/lc(p))*p + 0*q (Euclid's algorithm below needs a non-zero divisor)
+    const lp_int_ring_t* K = p->K;
+    const lp_upolynomial_t* nz = lp_upolynomial_is_zero(q) ? p : q;
+    lp_integer_t c;
+    integer_construct_from_int(lp_Z, &c, 0);
+    lp_upolynomial_t* zero = lp_upolynomial_construct(K, 0, &c);
+    lp_upolynomial_t* cofactor = 0;
+    if (lp_upolynomial_is_zero(nz)) {
+      cofactor = lp_upolynomial_construct(K, 0, &c);
+    } else {
+      integer_inv(K, &c, lp_upolynomial_lead_coeff(nz));
+      cofactor = lp_upolynomial_construct(K, 0, &c);
+    }
+    integer_destruct(&c);
+    gcd = lp_upolynomial_make_monic(nz);
+    if (nz == p) { *u = cofactor; *v = zero; } else { *u = zero; *v = cofactor; }
+  } else if (lp_upolynomial_degree(p) < lp_upolynomial_degree(q)) {
     gcd = lp_upolynomial_extended_gcd(q, p, v, u);
   } else {
     gcd = upolynomial_gcd_euclid(p, q, u, v);
